@@ -21,9 +21,10 @@ MANIFEST = {
             "source-derived stage list: C16_stage_in_source), C16_model_first_appearance (states/events/actions/guards/signatures of the engine's "
             "table model = first-appearance lists of the table), C16_replace_segmentwise, C16_outside_unchanged, C16_letter. The real output is "
             "compared with ref16 (extracted) on every generated template accepted by in_grammar16/wf16, and ref16 with an independent Python reference.",
-    "note": "PARTIAL: the composition of all stages and phases over a whole template (engine16 = ref16) and the nested per-state/per-event/"
-            "per-transition blocks (alternative text) are not proved; they are modelled, tied by differential execution and observed against the "
-            "references. signature/member/documentation/attribute tags are not modelled. Values substituted must not contain '<' '>' (checked per case).",
+    "note": "C16_engine_is_ref / C16_engine_is_ref_table: the whole pipeline (15 stages in source order, then user tags / FOR / write) on every "
+            "template of in_grammar16 with any number of blocks of any kinds equals ref16. PARTIAL: the nested per-state/per-event/"
+            "per-transition blocks (alternative text) are not in the Coq template syntax; they are modelled, tied by differential execution and "
+            "observed against the Python reference. signature/member/documentation/attribute tags are not modelled. Values substituted must not contain '<' '>' (checked per case).",
 }
 RULE = ("probe templates: 1-5 sections out of {plain text with blank runs and TABs, PER_STATE/EVENT/ACTION/GUARD/STRUCT/MSG/PROTOMSG block with "
         "1-3 body lines using the name tag of the block in its three case variants plus NUM/ALPH, PER_ACTION_SIGNATURE block, nested "
